@@ -629,8 +629,18 @@ impl TxRecoveryState {
                     );
                 },
                 TxWalEntry::PrepareVote { tx_id, shard, vote } => {
-                    if let Some((_, votes, _)) = in_progress.get_mut(tx_id) {
-                        votes.push((*shard, *vote));
+                    // Votes are logged before the coordinator validates them, so the
+                    // log also holds votes it rejected. Apply the same rules here:
+                    // only while still collecting votes (the phase is left as soon as
+                    // every participant has voted), and only the first vote per shard.
+                    if let Some((participants, votes, phase)) = in_progress.get_mut(tx_id) {
+                        let collecting = *phase == TxPhase::Preparing
+                            && !participants
+                                .iter()
+                                .all(|p| votes.iter().any(|(s, _)| s == p));
+                        if collecting && !votes.iter().any(|(s, _)| s == shard) {
+                            votes.push((*shard, *vote));
+                        }
                     }
                 },
                 TxWalEntry::PhaseChange { tx_id, to, .. } => {
